@@ -341,7 +341,7 @@ def _int_case(c):
         n = 24 if d <= 2 else 14
         ref = _gauss(f.eval, start, end, breaks, n, out_len, power)
     tol = 1e-6 if kind == "uq" else 1e-9
-    if val.shape != ref.shape or np.max(np.abs(val - ref)) > tol * max(1.0, float(np.max(np.abs(ref)))):
+    if val.shape != ref.shape or not (np.max(np.abs(val - ref)) <= tol * max(1.0, float(np.max(np.abs(ref))))):
         on_unit = all(s == 0.0 for s in start) and all(e == 1.0 for e in end)
         return [fail("analytic_integral", "%s(d=%d) on [%r,%r]: analytic %r, numerical integral of eval %r" % (name, d, start, end, val.tolist(), ref.tolist()),
                      dict(key))], ("mismatch",)
